@@ -63,7 +63,9 @@ def main():
                 # compiled from the same relative place inside the scratch worktree (demos may include "../../src/...")
                 dd = os.path.join(wt, '_seed', a.which)
                 os.makedirs(dd, exist_ok=True)
-                shutil.copyfile(os.path.join(src, demo), os.path.join(dd, demo))
+                for fn in os.listdir(src):          # the demo may come with helper headers
+                    if os.path.isfile(os.path.join(src, fn)) and fn != 'patch.diff':
+                        shutil.copyfile(os.path.join(src, fn), os.path.join(dd, fn))
                 try:
                     os.remove('/tmp/demo-%s' % sid)
                 except OSError:
